@@ -78,6 +78,11 @@ func applyDiff(a map[string]intoto.HashObj, kind string) {
 		delete(a[first], "sha256")
 	case "add-alg":
 		a[first]["sha512"] = "abcdef"
+	case "drop-all":
+		// one functionary reports nothing at all on this side
+		for p := range a {
+			delete(a, p)
+		}
 	case "respell-path":
 		// the same file under another spelling of its path is another path
 		a["./"+first] = a[first]
@@ -105,7 +110,7 @@ func runC05(c *core.Ctx) {
 						if links < 2 {
 							continue
 						}
-						for _, dk := range []string{"add-path", "drop-path", "digest", "rename-alg", "add-alg", "respell-path"} {
+						for _, dk := range []string{"add-path", "drop-path", "digest", "rename-alg", "add-alg", "respell-path", "drop-all"} {
 							for _, side := range []string{"materials", "products"} {
 								for ds := 0; ds < steps; ds++ {
 									if c.Quick() && (ds+steps+th+len(dk)+len(side))%3 != 0 {
@@ -178,7 +183,15 @@ func runC05(c *core.Ctx) {
 			}
 			steps = append(steps, gen.Step(name, k.Threshold, gen.KeyIDs(fn...), mr, pr))
 		}
-		layout := gen.NewLayout(steps, nil, gen.KeyMap(fn...))
+		var inspections []intoto.Inspection
+		inspLike := ""
+		if k.DiffStep < 0 && k.BadStep == 0 && ci%5 == 4 {
+			// an inspection that happens to be called like the first / the last step: its link is
+			// no evidence of that step and must not find its way into the summary
+			inspLike = fmt.Sprintf("step%d", []int{0, k.Steps - 1}[ci/5%2])
+			inspections = []intoto.Inspection{gen.Inspection(inspLike, []string{Helper(c), "touch", filepath.Join(root, "inspection-ran")}, [][]string{{"ALLOW", "*"}}, [][]string{{"ALLOW", "*"}})}
+		}
+		layout := gen.NewLayout(steps, inspections, gen.KeyMap(fn...))
 		md, err := gen.SignedMeta(layout, k.DSSE, owner.Priv)
 		if err != nil {
 			c.Inconclusive("harness: sign layout")
@@ -225,6 +238,9 @@ func runC05(c *core.Ctx) {
 			wantOK = false
 		}
 		detail := map[string]any{"case": k.String()}
+		if inspLike != "" {
+			detail["inspection_named_like"] = inspLike
+		}
 		c.Begin(id)
 		var first VerifyObs
 		for rep := 0; rep < 4; rep++ {
@@ -345,7 +361,7 @@ func c05Reduce(c *core.Ctx, fn []gen.KeyPair) {
 	}
 	ok := int64(0)
 	layout := gen.NewLayout([]intoto.Step{gen.Step("s", 1, nil, nil, nil)}, nil, nil)
-	for _, dk := range []string{"", "add-path", "drop-path", "digest", "rename-alg", "add-alg"} {
+	for _, dk := range []string{"", "add-path", "drop-path", "digest", "rename-alg", "add-alg", "respell-path", "drop-all"} {
 		for _, side := range []string{"materials", "products"} {
 			for pos := 0; pos < 3; pos++ {
 				for rep := 0; rep < 6; rep++ {
@@ -387,7 +403,7 @@ func init() {
 	core.Register(&core.Property{
 		ID:    "C05",
 		Level: "exploration",
-		Rule: "chains of 1-4 steps (step i consumes the product of step i-1), thresholds 1-3, threshold..3 validly signed authorized links per step; a single difference {added path, dropped path, one digest nibble, renamed algorithm, added algorithm, the same path spelled ./path} in the materials or products of one counted link at every step position; all counted links of one step (every position) agreeing on a product that step's rules forbid, with and without a rule-less step in front of it (rejected unless the agreeing step itself has no rules); uncounted links (unsigned / unauthorized / tampered) with arbitrary other artifacts added to otherwise identical directories (metamorphic pairs; the product rules REQUIRE f_i / DISALLOW evil would flip the verdict if they were evaluated on the uncounted link); 2 wrappers x 2 entry points; a third of the chains carry MATCH ... IN vendor rules on the first and last step that consume nothing (the agreed sets and the summary must not change); every case verified 4 times (the reference link is picked from a map); the summary link is compared with (requested name, agreed materials of the first step, agreed products of the last step); ReduceStepsMetadata called directly with the difference at each of 3 positions x 6 repetitions. " +
+		Rule: "chains of 1-4 steps (step i consumes the product of step i-1), thresholds 1-3, threshold..3 validly signed authorized links per step; a single difference {added path, dropped path, one digest nibble, renamed algorithm, added algorithm, the same path spelled ./path, nothing reported at all} in the materials or products of one counted link at every step position; all counted links of one step (every position) agreeing on a product that step's rules forbid, with and without a rule-less step in front of it (rejected unless the agreeing step itself has no rules); uncounted links (unsigned / unauthorized / tampered) with arbitrary other artifacts added to otherwise identical directories (metamorphic pairs; the product rules REQUIRE f_i / DISALLOW evil would flip the verdict if they were evaluated on the uncounted link); 2 wrappers x 2 entry points; a third of the chains carry MATCH ... IN vendor rules on the first and last step that consume nothing (the agreed sets and the summary must not change); a fifth of the agreeing chains carry an inspection named like the first or the last step; every case verified 4 times (the reference link is picked from a map); the summary link is compared with (requested name, agreed materials of the first step, agreed products of the last step); ReduceStepsMetadata called directly with the difference at each of 3 positions x 6 repetitions. " +
 			"non-trivial = >=2 counted links or an uncounted link with other artifacts; distinct = the case tuple",
 		Assumptions: []string{"every validly signed authorized link counts, also beyond the threshold"},
 		Workers:     func(string) int { return 16 },
